@@ -29,8 +29,14 @@ func VerifC04Round2Step() {
 	e := c04Setup(n, t)
 	gid := tss.GroupID(1)
 
-	// ---- pre-state
+	// ---- addressing of the message and pre-state (full product for the existing group in ROUND_2, a
+	// representative family otherwise; see VerifC04Round1Step)
 	inRound2 := vs.Bool("group_in_round_2")
+	msgGroup := gid
+	if inRound2 && vs.Bool("unknown_group") {
+		msgGroup = 3
+	}
+	full := inRound2 && msgGroup == gid
 	status := types.GROUP_STATUS_ROUND_2
 	if !inRound2 {
 		status = types.GroupStatus(vs.Int("other_status", 0, 6))
@@ -45,30 +51,29 @@ func VerifC04Round2Step() {
 	shares := make([]tss.EncSecretShares, n)
 	nSub := 0
 	for m := 0; m < n; m++ {
-		submitted[m] = vs.Bool("already_submitted")
+		if full || m == 0 {
+			submitted[m] = vs.Bool("already_submitted")
+		}
 		if submitted[m] {
 			nSub++
 			shares[m] = c04ArbitraryShares(n - 1)
 		}
 	}
 	c04StoreRound2(e, gid, dealers, submitted, shares)
-	var pending []tss.GroupID
-	if vs.Bool("bystander_group_pending") {
-		pending = append(pending, 2)
-	}
+	pending := []tss.GroupID{2}
 	if nSub == n && inRound2 {
 		pending = append(pending, gid)
 	}
 	e.k.SetPendingProcessGroups(e.ctx, types.NewPendingProcessGroups(pending))
 
-	// ---- message
-	msgGroup := gid
-	if vs.Bool("unknown_group") {
-		msgGroup = 3
-	}
 	mid := tss.MemberID(vs.Pick("msg_member_id", n+2))
-	senderIdx := vs.Pick("sender", n+1)
 	isMember := mid >= 1 && int(mid) <= n
+	senderIdx := 0
+	if full {
+		senderIdx = vs.Pick("sender", n+1)
+	} else if isMember {
+		senderIdx = int(mid) - 1
+	}
 	gateOK := msgGroup == gid && inRound2 && isMember && senderIdx == int(mid)-1 && !submitted[int(mid)-1]
 	nShares := n - 1
 	if gateOK {
